@@ -471,11 +471,35 @@ def propagate (code : Code) : Nat → List Nat → Cert → Cert
         propagate code fuel work' cert'
     | none => propagate code fuel work cert
 
+/-- is some recursive loop of the stream left without a state? -/
+def hasDeadRecLoop (code : Code) (cert : Cert) : Bool :=
+  (List.range code.size).any (fun t => isRecLoop code t && (look cert t).isNone)
+
+/-- the first pc without a state that directly follows an unconditional `Jump` with a state: dead code
+    behind `{% break %}` / `{% continue %}`; statements leave the operand stack as they found it, so the
+    state in front of the jump is proposed for the code behind it -/
+def deadSeed (code : Code) (cert : Cert) : Option (Nat × Abs) :=
+  (List.range code.size).findSome? (fun p =>
+    match look cert p, code[p - 1]?, look cert (p - 1) with
+    | none, some (.jump _), some A => if p = 0 then none else some (p, A)
+    | _, _, _ => none)
+
+/-- certify dead code too while a recursive loop lies in it (the checker wants every recursive loop of the
+    stream certified: a recursion may enter any of them) -/
+def certifyDead (code : Code) (n : Nat) : Nat → Cert → Cert
+  | 0, cert => cert
+  | k + 1, cert =>
+    if hasDeadRecLoop code cert then
+      match deadSeed code cert with
+      | some (p, A) => certifyDead code n k (propagate code (8 * n + 8) [p] (cert.set! p (some A)))
+      | none => cert
+    else cert
+
 def inferStk (code : Code) : Cert :=
   let n := code.size + 1
   let es := (entries code).filter (·.1 < n)
   let cert0 : Cert := es.foldl (fun c e => c.set! e.1 (some ⟨List.replicate e.2 .v, []⟩)) (Array.replicate n none)
-  propagate code (8 * n + 8) (es.map (·.1)) cert0
+  certifyDead code n 16 (propagate code (8 * n + 8) (es.map (·.1)) cert0)
 
 /-- the verdict of the translation validation of one stream -/
 def validate (code : Code) : Bool := checkStk code (inferStk code)
